@@ -25,6 +25,9 @@ type specFn struct {
 	F   *spec.SpecFunc
 	Pkg *types.Package
 	recKnown, rec bool
+	// heap-reading recursive definitions: the heaps read by the body, per instantiation (see applyUF)
+	heapKeys    map[string][]leaf
+	discovering map[string]bool
 }
 
 // axiomDecl is a file-level `axiom` (an assumption about uninterpreted specification functions).
